@@ -21,7 +21,7 @@ RULE = ("(i) all 64 edge subsets of the 4-node topological order x 24 textual or
         "result names, side-effect-only sinks returning None, forward references), several programs per process; (iii) random EEMS models; "
         "each followed by a random history of 0-8 run()/result/metadata/to_string/validate_params steps; distinct by (n, edge count, "
         "styles used, has-sink, has-colliding-strings, history step kinds)")
-REQUIRED_COUNTERS = ["odd_result_programs", "edited_programs_run", "foreign_reference_programs", "programs_run", "execute_events", "read_events", "history_steps", "reference_values_compared", "flatten_contract_evaluations", "retry_programs", "grown_programs", "api_built_programs", "inside_execute_records_compared", "large_result_programs", "deep_chain_programs", "program_copies_checked", "programs_evaluated_through_their_commands_only"]
+REQUIRED_COUNTERS = ["user_classes_named_like_stock_commands", "odd_result_programs", "edited_programs_run", "foreign_reference_programs", "programs_run", "execute_events", "read_events", "history_steps", "reference_values_compared", "flatten_contract_evaluations", "retry_programs", "grown_programs", "api_built_programs", "inside_execute_records_compared", "large_result_programs", "deep_chain_programs", "program_copies_checked", "programs_evaluated_through_their_commands_only"]
 EXHAUSTIVE_NOTE = "thorough tier enumerates all 64 x 24 x 3 four-command programs"
 ASSUMPTIONS = ["a chain of %d direct references must run under the default recursion limit (the pinned tree manages about 330; deeper chains are left to C13: whatever happens there must be an MPilot error)" % 210,
                "programs that fail to run are judged elsewhere (C12-C14) unless the program is valid by construction",
@@ -290,6 +290,8 @@ def cases(ctx):
         # the same kind of program built through add_command, references given as result names or as Command objects
         nodes = gen_dag(rng, n=rng.randint(2, 10))
         yield {"kind": "apidag", "nodes": nodes, "history": _gen_history(rng, len(nodes)), "rseed": rng.randrange(10 ** 9)}
+    for i in range(ctx.n(12, 300)):
+        yield {"kind": "shadow", "which": ["Sum", "Copy", "EEMSRead"][(i + ctx.shard) % 3], "order": rng.sample(range(4), 4), "twice": rng.random() < 0.5, "stock_first": rng.random() < 0.5}
     ODD = ["generator", "generator-function-call", "iterator", "map", "dict", "callable", "class", "empty-list", "empty-tuple", "zero", "empty-string", "false",
            "command-class", "exception-object", "file-like", "none"]
     for i in range(ctx.n(32, 800)):
@@ -485,7 +487,51 @@ def run_oddresult(ctx, case):
                 return
 
 
+def run_shadow(ctx, case):
+    """A class of the user's own that carries the name of a stock command, handed to add_command: that class is the command
+    that is added and it executes exactly once."""
+    import vshadow
+    from mpilot.program import Program
+    from mpilot.libraries.eems import basic
+    which = case["which"]
+    cls = getattr(vshadow, which)
+    steps = [(vshadow.ShadowField, "First", {"Values": [1, 2, 3]}), (vshadow.ShadowField, "Second", {"Values": [10, 20, 30]})]
+    if which == "Sum":
+        steps.append((cls, "Total", {"InFieldNames": ["First", "Second"]}))
+    elif which == "Copy":
+        steps.append((cls, "Total", {"InFieldName": "Second"}))
+    else:
+        steps.append((cls, "Total", {"InFieldName": "whatever"}))
+    steps.append((basic.AMinusB, "Rest", {"A": "Total", "B": "First"}))
+    steps = [steps[i] for i in case["order"]]
+    ctx.feature(("shadow", which, tuple(case["order"]), case["twice"], case["stock_first"]))
+    del vshadow.EXEC_LOG[:]
+    try:
+        if case["stock_first"]:
+            Program().find_command_class(which)
+        prog = Program()
+        for c, name, args in steps:
+            prog.add_command(c, name, args)
+        prog.run()
+        if case["twice"]:
+            prog.run()
+        for c in prog.commands.values():
+            c.result
+    except Exception as e:
+        ctx.fail("shadow:raises-%s:%s" % (type(e).__name__, which), {"error": repr(e)[:200]})
+        return
+    ctx.count("programs_run")
+    ctx.count("user_classes_named_like_stock_commands")
+    if type(prog.commands["Total"]) is not cls:
+        ctx.fail("shadow:another-class-was-added:%s" % which, {"given": "%s.%s" % (cls.__module__, cls.__name__), "added": "%s.%s" % (type(prog.commands["Total"]).__module__, type(prog.commands["Total"]).__name__)})
+        return
+    if sorted(vshadow.EXEC_LOG) != ["First", "Second", "Total"]:
+        ctx.fail("shadow:not-exactly-once:%s" % which, {"executed": list(vshadow.EXEC_LOG)})
+
+
 def run_case(ctx, case):
+    if case.get("kind") == "shadow":
+        return run_shadow(ctx, case)
     if case.get("kind") == "oddresult":
         return run_oddresult(ctx, case)
     from mpilot.program import Program
